@@ -115,6 +115,9 @@ def gen_cases(ctx, for_search=False):
             for _ in range(50 if quick else 500):
                 h = PREFIX + random_history(rng, rng.randint(3, 9), eval_updates=True, no_bwd=True)
                 cases.append(('D', cls, cfg, rng.randrange(1 << 30), False, h))
+    # frozen parameters: the cached tensors carry no autograd graph, so the modelled second-backward error (known finding F11c) does not
+    # arise there; those configurations run the histories WITHOUT a repeated cached backward (the hypothesis of the theorem)
+    cases = [c for c in cases if not (c[2].get('frozen') and not L.hypotheses(c[5], c[4])[1])]
     return cases
 
 
